@@ -5,6 +5,7 @@ CONSTANTS
   Files = {"s1", "s2"}
   FBody <- FB
   SBody <- SB
+  ForPats <- FP
   Legacy <- AllLegacy
 INVARIANT Agree
 INVARIANT Emit
